@@ -11,6 +11,7 @@ func init() {
 	vHarnesses["H_C04_catch"] = H_C04_catch
 	vHarnesses["H_C09_history"] = H_C09_history
 	vHarnesses["H_C11_allsol"] = H_C11_allsol
+	vHarnesses["H_C18_ops"] = H_C18_ops
 	vHarnesses["H_C08_order"] = H_C08_order
 	vHarnesses["H_C08_sort"] = H_C08_sort
 	vHarnesses["H_C02_pair"] = H_C02_pair
@@ -104,4 +105,10 @@ func H_C08_order(inst int) {
 func H_C08_sort(inst int) {
 	i := newFull()
 	engine.VH_C08_sort(&i.VM, inst)
+}
+
+// H_C18_ops: 1..3 op/3 calls (family = inst) with symbolic priority, then current_op/3 in all patterns, reader and writer.
+func H_C18_ops(inst int) {
+	i := newFull()
+	engine.VH_C18(&i.VM, inst)
 }
